@@ -8,6 +8,7 @@ import HealSparse.Lemmas.Valid
 import HealSparse.Model.ScalarOps
 import HealSparse.Props.C04
 import HealSparse.Props.C02
+import HealSparse.Lemmas.ScalarOps
 namespace HS
 namespace C12
 
@@ -22,7 +23,12 @@ theorem scalarOp_spec (c : Cfg) (vc : VCfg V) (s : State V) (f : V → V) (h : I
     (∀ p, p < c.npix → abs c vc (scalarOp vc s f) p
         = if vc.valid (abs c vc s p) then f (abs c vc s p) else abs c vc s p) ∧
     (∀ k, covered c (scalarOp vc s f) k = covered c s k) := by
-  sorry
+  have hg : (fun x => if vc.valid x then f x else x) vc.sentinel = vc.sentinel := by
+    simp [hv]
+  rw [scalarOp_eq]
+  refine ⟨inv_mapCells c vc vc s _ h hg, ?_, fun k => mapCells_covered c s _ k⟩
+  intro p hp
+  exact abs_mapCells c vc vc s _ h p hp
 
 /-- `apply_mask` never raises on a well-formed map, invalidates exactly the valid pixels
     whose mask value is bad, changes nothing else, and keeps layout and coverage. -/
@@ -32,14 +38,33 @@ theorem applyMask_spec (c : Cfg) (vc : VCfg V) (s : State V) (bad : Nat → Bool
       (∀ p, p < c.npix → abs c vc s' p
           = if vc.valid (abs c vc s p) && bad p then vc.sentinel else abs c vc s p) ∧
       (∀ k, covered c s' k = covered c s k) := by
-  sorry
+  refine ⟨_, h.applyMask_eq hv bad, ?_, ?_, fun k => withScatter_covered c s _ _ k⟩
+  · exact inv_withScatter c vc s _ _ h (h.badPixels_covered hv bad)
+  · intro p hp
+    rw [abs_withScatter c vc s _ _ h (h.badPixels_covered hv bad) p hp, denseFold_const]
+    have hmem := h.mem_badPixels hv bad p
+    cases hc : covered c s (p >>> c.shift) with
+    | false =>
+      rw [h.abs_uncovered hp hc, hv]
+      simp
+    | true =>
+      simp only [if_true]
+      by_cases hb : vc.valid (abs c vc s p) = true ∧ bad p = true
+      · rw [if_pos (hmem.2 ⟨hp, hb.1, hb.2⟩)]
+        simp [hb.1, hb.2]
+      · rw [if_neg (fun hm => hb (hmem.1 hm).2)]
+        rw [if_neg (by simpa using hb)]
 
 /-- valid set after apply_mask = valid ∧ ¬ bad -/
 theorem applyMask_valid (c : Cfg) (vc : VCfg V) (s s' : State V) (bad : Nat → Bool) (h : Inv c vc s)
     (hv : vc.valid vc.sentinel = false) (hs' : applyMask c vc s bad = some s')
     (p : Nat) (hp : p < c.npix) :
     vc.valid (abs c vc s' p) = (vc.valid (abs c vc s p) && !bad p) := by
-  sorry
+  obtain ⟨s'', hs'', _, habs, _⟩ := applyMask_spec c vc s bad h hv
+  rw [hs'] at hs''
+  cases hs''
+  rw [habs p hp]
+  cases hval : vc.valid (abs c vc s p) <;> cases hb : bad p <;> simp [hval, hv]
 
 /-- `astype`: values converted on valid pixels, the new sentinel elsewhere; the result is a
     well-formed map over the new cell type with the same coverage. -/
@@ -49,7 +74,12 @@ theorem astype_spec {V' : Type} [DecidableEq V'] (c : Cfg) (vc : VCfg V) (vc' : 
     (∀ p, p < c.npix → abs c vc' (astypeMap vc s conv vc'.sentinel) p
         = if vc.valid (abs c vc s p) then conv (abs c vc s p) else vc'.sentinel) ∧
     (∀ k, covered c (astypeMap vc s conv vc'.sentinel) k = covered c s k) := by
-  sorry
+  have hg : (fun x => if vc.valid x then conv x else vc'.sentinel) vc.sentinel = vc'.sentinel := by
+    simp [hv]
+  rw [astypeMap_eq]
+  refine ⟨inv_mapCells c vc vc' s _ h hg, ?_, fun k => mapCells_covered c s _ k⟩
+  intro p hp
+  exact abs_mapCells c vc vc' s _ h p hp
 
 /-- `astype` preserves the valid set **provided no converted value coincides with the new
     sentinel** (a converted value equal to the new sentinel cannot be represented as valid;
@@ -59,7 +89,10 @@ theorem astype_valid_preserved {V' : Type} [DecidableEq V'] (c : Cfg) (vc : VCfg
     (hv' : vc'.valid vc'.sentinel = false)
     (hconv : ∀ x, vc.valid x = true → vc'.valid (conv x) = true) (p : Nat) (hp : p < c.npix) :
     vc'.valid (abs c vc' (astypeMap vc s conv vc'.sentinel) p) = vc.valid (abs c vc s p) := by
-  sorry
+  rw [(astype_spec c vc vc' s conv h hv).2.1 p hp]
+  cases hval : vc.valid (abs c vc s p) with
+  | true => simpa using hconv _ hval
+  | false => simpa using hv'
 
 /-- `as_bit_packed_map`: a well-formed boolean map, True exactly on the valid pixels, same coverage. -/
 theorem asBitPacked_spec (c : Cfg) (vc : VCfg V) (s : State V) (h : Inv c vc s)
@@ -68,7 +101,19 @@ theorem asBitPacked_spec (c : Cfg) (vc : VCfg V) (s : State V) (h : Inv c vc s)
     (∀ p, p < c.npix → abs c (⟨false, fun b => b⟩ : VCfg Bool) (asBitPacked c vc s) p
         = vc.valid (abs c vc s p)) ∧
     (∀ k, covered c (asBitPacked c vc s) k = covered c s k) := by
-  sorry
+  refine ⟨?_, ?_, fun k => rfl⟩
+  · refine inv_of_cov_eq (s' := asBitPacked c vc s) (vw := (⟨false, fun b => b⟩ : VCfg Bool)) h rfl
+      h.asBitPacked_size ?_
+    intro i hi
+    rw [h.asBitPacked_get hv (Nat.lt_of_lt_of_le hi h.nfine_le_size)]
+    have : rd s.sp i vc.sentinel = vc.sentinel := by
+      unfold rd; rw [h.2.2.1 i hi]; rfl
+    rw [this, hv]
+  · intro p hp
+    show rd (asBitPacked c vc s).sp (idxOf c s p) false = vc.valid (rd s.sp (idxOf c s p) vc.sentinel)
+    unfold rd
+    rw [h.asBitPacked_get hv (h.idxOf_lt_size hp)]
+    rfl
 
 /-- non-vacuity: a map with a valid, an invalid-covered and uncovered pixels -/
 example : (scalarOp (V := Int) ⟨-1, fun x => x != -1⟩ ⟨#[2, -2], #[-1, -1, 5, -1]⟩ (· * 3)).sp
